@@ -415,3 +415,42 @@ def r1e_loop_progress(ctx):
     r.floor("hand-written loops", n, 8)
     r.floor("loops matching a progress idiom", classified, 6)
     return r
+
+
+def r1e_worklist_unbounded(ctx):
+    r = Result("R1e-b", "a pop-driven worklist that searches a graph (cycle detection, import closure) skips a node only because "
+                        "of what the search has already seen: no branch inside the loop compares a length or a counter with an "
+                        "integer constant >= 2 (a depth / size bound). A bound makes the search incomplete in a way no small "
+                        "test shows: nodes past the bound are marked visited by the walk that gave up, so a cycle longer than "
+                        "the bound is never reported")
+    crate = ctx.bin
+    n = 0
+    for f in crate.real_fns():
+        if "_serde::" in f.id or f.id.startswith("<"):
+            continue
+        for h, latches, body in natural_loops(f):
+            if _iterator_driven(f, h, body):
+                continue
+            hb = _skip_goto(f, h)
+            ht = f.blocks[hb]["t"]
+            if not (ht[0] == "call" and re.search(r"Vec::<T, A>::pop$|VecDeque::<T, A>::pop_(front|back)$", ht[1].get("res") or "")):
+                continue
+            n += 1
+            bounds = []
+            for b in sorted(body):
+                for st in f.blocks[b]["s"]:
+                    if st[0] != "=" or st[2][0] != "bin" or st[2][1] not in ("Lt", "Le", "Gt", "Ge"):
+                        continue
+                    for o in (st[2][2], st[2][3]):
+                        k = op_const(o)
+                        v = k.get("v") if k else None
+                        if v is not None and str(v).isdigit() and int(v) >= 2 and not (st[-1][4] if isinstance(st[-1], list) and len(st[-1]) > 4 else "").startswith("macro:"):
+                            bounds.append((int(v), st[-1]))
+            key = "R1e-b|%s|numeric bound in worklist" % f.id
+            if bounds:
+                r.violate(key, "worklist loop in %s compares against the constant(s) %s at %s" % (
+                    f.id, sorted({b[0] for b in bounds}), crate.span_str(bounds[0][1]) if isinstance(bounds[0][1], list) else "?"))
+            else:
+                r.ok(sample={"worklist": f.id.split("::")[-1]} if len(r.samples) < 4 else None)
+    r.floor("pop-driven worklists", n, 1)
+    return r
